@@ -554,6 +554,11 @@ def precision_structs():
     yield [[3600.0000005, 0.0], [3600.0, 3.0]]
     yield [3600.0000005, 3600.0]
     yield [3600.0000005, 3.0, 3600.0, 0.0]
+    # reversed pairs that become EQUAL in single precision (the order is decided on the doubles given)
+    yield [7200.00015, 1000.0, 7200.0001, 2000.0]
+    yield [1.0, 4200000.3, 2.0, 4200000.1]
+    yield [7200.00015, 7200.0001]
+    yield [[7200.00015, 0.0], [7200.0001, 3.0]]
     # bounds for which low + (high - low) != high in doubles (the normal form only re-orders what was given)
     yield [0.5, 1024.9, 1.5, 8000.3]
     yield [1.5, 16360.72, 0.5, 2121.8]
@@ -582,6 +587,11 @@ def tag_cases(tier):
         yield {"sp": "mode_tag", "c": c, "missing": "type"}
         for u in UNKNOWN_TAGS:
             yield {"sp": "mode_tag", "c": c, "tag": u}
+    # an attribute object that happens to BE a geometry of another class than its type attribute names (a re-tagged copy)
+    for x in TYPES:
+        for y in TYPES:
+            if x != y:
+                yield {"sp": "retagged", "cls": x, "tag": y}
     for x in TYPES:
         yield {"sp": "mode_tag", "tag": x, "missing": "coordinates"}
         for how in ("json_truncated", "json_nonobject", "json_mode_given_dict", "dict_mode_given_text",
@@ -599,6 +609,27 @@ def _try(fn):
 def run_tag_case(case):
     sp = case["sp"]
     out = Out(case)
+    if sp == "retagged":
+        x, y = case["cls"], case["tag"]
+        inst = GEOM_CLASSES[x](coordinates=EXAMPLES[x]).model_copy(update={"type": y})
+        c = inst.coordinates
+        exp = gm.valid(y, c)
+        r = _try(lambda: geometry_validate(inst, mode="attributes"))
+        got = _label(r)
+        cls = {"type": y, "entry": "attributes", "tag": "instance_of_" + x, "model": "valid" if exp else gm.why_invalid(y, c), "got": got}
+        out.expect("accept_iff_valid", (got == "accept") == exp, got, "accept" if exp else "reject", cls)
+        if got == "accept":
+            out.expect("class_matches_tag", type(r) is GEOM_CLASSES[y] and r.type == y, [type(r).__name__, getattr(r, "type", None)], [y, y],
+                       {"type": y, "entry": "attributes", "tag": "instance_of_" + x})
+            if exp:
+                out.expect("normal_form", r.coordinates == gm.normal(y, c), r.coordinates, gm.normal(y, c),
+                           {"type": y, "entry": "attributes", "input": "retagged-instance"})
+        else:
+            out.expect("no_object_on_reject", got == "reject", _msg(r), "a ValueError subclass",
+                       {"type": y, "entry": "attributes", "tag": "instance_of_" + x, "exc": _excname(r)})
+        out.nontrivial = exp
+        out.klass = "retagged:%s" % got
+        return out
     if sp == "ctor_tag":
         x, y, c = case["cls"], case["tag"], case["c"]
         klass = GEOM_CLASSES[x]
